@@ -23,6 +23,8 @@ CHECKS = {
         "deterministic simulation with a byzantine peer: seeded response substitutions + enumerated single-substitution floor"),
 "C13": ("client", "exploration", "The complete configuration grid (31 client sets x 32 server sets x 6 scripted-server behaviours, the real kmipserver with each set, and enforced versions: 7564 dials) is swept inside the simulator in every run with the real client negotiation, followed by one request on the original and on a cloned client; the seeded part adds configuration order, chunked/byte-wise reads, stalls and preemptions. Oracle: reference model of the statement (highest common version or failure; 1.0 fallback only if configured; adopted version in the client set; no discovery when enforced; every later request header carries the adopted version).", "DESIGN.md §3 C13",
         "deterministic simulation: exhaustive configuration grid swept inside the simulator + seeded transport/schedule variation"),
+"C09": ("server", "exploration", "Seeded deterministic simulation of the real BatchExecutor: 1-4 concurrent request batches (0-12 items, 13 scripted item outcomes incl. five panic kinds, unrouted operation, critical extension; option unset/Continue/Stop/Undo; supported/unsupported version; count +-1; ids on/off) executed directly on one shared executor or end to end (real client -> simnet -> real server), handlers yielding to the scheduler; plus a complete floor over every batch of length <= 3 (quick) / <= 5 (thorough) x 8 outcomes x 4 options x ids x version x count. Oracle: reference model of the statement (one item per request item in order echoing operation and id, count and version, handler trace in order at most once, Stop/Continue semantics, rejection without handler execution).", "DESIGN.md §3 C09",
+        "deterministic simulation: reference-model comparison over seeded concurrent batches + exhaustive short-batch floor"),
 }
 ENG = {"stream":"sim/harness/stream.go","server":"sim/harness/server*.go","client":"sim/harness/client*.go","codec":"sim/harness/codec.go"}
 def main():
